@@ -82,6 +82,14 @@ pub fn listed_candidates(tree: &TreeSpec, base: &Path) -> Vec<String> {
 }
 
 pub fn eval_c15(case: &C15Case) -> CaseResult {
+    catch_case(
+        "inc-c15:panic",
+        |msg| json!({"engine": "INC-c15", "case": serde_json::to_value(case).unwrap(), "message": msg}),
+        || eval_c15_inner(case),
+    )
+}
+
+fn eval_c15_inner(case: &C15Case) -> CaseResult {
     let sb = Sandbox::new("c15");
     let base = sb.path("proj");
     case.tree.materialise(&base, &sb.path("outside"));
